@@ -189,6 +189,9 @@ class IncrementalExecutor(Executor[DeliveryGroupMap]):
         self.groups = []
         self.tasks = []
         self.streams = []
+        # All stream item queues, shared with all sub-executors, so that queues
+        # produced by work that has not been scheduled yet can still be aborted
+        self._stream_item_queues: list[StreamItemQueue] = []
         # Execution plan memoization shared with all sub-executors
         self._initial_execution_plans: RefMap[GroupedFieldSet, ExecutionPlan] = RefMap()
         self._deferred_execution_plans: RefMap[
@@ -236,6 +239,24 @@ class IncrementalExecutor(Executor[DeliveryGroupMap]):
             await gather(*awaitables, return_exceptions=True)
 
         return settle_awaitables()
+
+    async def cancel_incremental_work(
+        self, reason: BaseException | None = None
+    ) -> None:
+        """Cancel all pending incremental work and close the stream sources.
+
+        This also aborts the stream item queues produced by nested work that
+        has been executed early, but has not been scheduled yet.
+        """
+        await super().cancel_incremental_work(reason)
+        is_awaitable = self.is_awaitable
+        awaitables = [
+            abort_result
+            for queue in self._stream_item_queues
+            if is_awaitable(abort_result := queue.abort(reason))
+        ]
+        if awaitables:
+            await gather(*awaitables, return_exceptions=True)
 
     def abort_in_background(self, reason: BaseException | None = None) -> None:
         """Abort the produced incremental work, settling cleanup in background.
@@ -695,7 +716,9 @@ class IncrementalExecutor(Executor[DeliveryGroupMap]):
             )
             return None
 
-        return StreamItemQueue(produce, on_abort, eager=enable_early_execution)
+        queue = StreamItemQueue(produce, on_abort, eager=enable_early_execution)
+        self._stream_item_queues.append(queue)
+        return queue
 
     def complete_stream_item(
         self,
